@@ -16,7 +16,7 @@ from ..core import Batch, cbool, clist, copt, cpair, cstr
 ID = "C12"
 LEVEL = "proof"
 PROP_FILE = "Properties/C12.v"
-PROOF_FILES = ["Proofs/LabelProofs.v", "Model/Label.v", "Model/Cli.v", "Gen/CliTable.v", "Model/CliRun.v", "Proofs/CliRunProofs.v"]
+PROOF_FILES = ["Proofs/CliExtraProofs.v", "Proofs/LabelProofs.v", "Model/Label.v", "Model/Cli.v", "Gen/CliTable.v", "Model/CliRun.v", "Proofs/CliRunProofs.v"]
 TRUSTED = [
     "model Model/Label.v of ReconciliationInput.label_internal and get_species_mapping (names as Coq strings, a tree as its pre-order name list plus its shape)",
     "model Model/Cli.v of the dispatch decision of cli/reconcile.py:call_algorithm",
